@@ -27,6 +27,12 @@ CLAIMED = {
  "C20": ("runtime monitor on svg_reuse.affine_between: every reported transform is applied exactly to the first outline (reference interpretation) and compared command for command with the second within the tolerance; completeness for exact translations and identity for identical shapes",
          "Every call made by the workload (exact images under 7 transform families, identical pairs, unrelated pairs, near-miss pairs 1.05-3x tolerance off, structure changes, basic shapes with arcs) is judged. Held-on-observed.",
          "Trusts reusemon.tokens/verify (independent of svg_reuse). None is never a violation except for exact translations.", "3/C20"),
+ "C02": ("runtime monitoring of real topicosvg() conversions of generated structural documents; oracle = independent point-sampling SVG evaluator applied to source and output (ordered paint stacks equal outside a 0.4% band, uniform + edge-biased samples)",
+         "Each conversion is judged at ~250 points by an independent implementation of the SVG rendering model (transforms, use, nested viewports, display). Held-on-observed: defects thinner than the band or on ungenerated geometry are invisible.",
+         "Trusts ref/render.py and its semantic decisions (DESIGN.md 2.3.1); documents that raise are counted, not judged.", "3/C02"),
+ "C03": ("same conversion monitor as C02 over documents with clipPaths; the reference evaluator implements clip regions (union of children under clip-rule, clipPath/child transforms, nested clip-path, user space of the referencing element incl. use translate); stacks equal outside the band of every involved edge; no clip-path left",
+         "Each conversion is judged at ~250 points; counters prove that clips decided thousands of retained points and that rule-sensitive (nonzero != evenodd) points were present. Held-on-observed.",
+         "Trusts ref/render.py; clip-rule inheritance, transform+clip-path on one clipPath and clipPathUnits are not generated (scope decisions).", "3/C03"),
 }
 NOT_YET = "check not built yet in this session (build in progress; see DESIGN.md section 8 for the construction order)"
 
